@@ -11,7 +11,7 @@ def clsOnSetErr (c : Case) : Bool := match clsOnSet c with | .error _ => true | 
 theorem firstError_none_iff (c : Case) :
     firstError c = none ↔
       (eqOrderErr c = false ∧ clsOnSetErr c = false ∧ (hasCustomSetattr c && isFrozen c) = false ∧
-       (strFlag c && !reprDec c) = false ∧ (hooks c && hasCustomSetattr c) = false ∧
+       (strFlag c && !reprDec c && !hasOwn (classDict c.body) "__repr__") = false ∧ (hooks c && hasCustomSetattr c) = false ∧
        (hashLocal c == .bad) = false ∧ (cacheHash c && hashDec c != .gen) = false ∧
        (isFrozen c && effective (builderOnSet c)) = false ∧ (!initDec c && cacheHash c) = false) := by
   unfold firstError eqOrderErr clsOnSetErr
@@ -43,7 +43,7 @@ theorem hashLocal_bad (c : Case) : (hashLocal c == .bad) = (sHash c == .bad) := 
 theorem expectErr_eq (c : Case) :
     expectErr c =
       (cmpMix c || orderNeedsEq c || frozenBaseHook c || (sAuto c && owns c "__setattr__" && sFrozen c) ||
-       (sStr c && !wantRepr c) || (sHooks c && sAuto c && owns c "__setattr__") || (sHash c == .bad) ||
+       (sStr c && !wantRepr c && !owns c "__repr__") || (sHooks c && sAuto c && owns c "__setattr__") || (sHash c == .bad) ||
        (sCacheHash c && (wantHash c != .gen || !wantInit c)) || (sFrozen c && sOnSet c != .off)) := by
   unfold expectErr cmpMix orderNeedsEq frozenBaseHook
   simp only [Bool.and_assoc]
@@ -51,8 +51,10 @@ theorem expectErr_eq (c : Case) :
 /-- **the checks of `attrs.wrap`, in code order, raise exactly on the documented conditions** -/
 theorem firstError_none_iff_expectErr (c : Case) (hcmp : c.api = .attrS ∨ c.fCmp = .unset) :
     firstError c = none ↔ expectErr c = false := by
+  have hrepr : hasOwn (classDict c.body) "__repr__" = owns c "__repr__" := by
+    rw [hasOwn_classDict]; simp [owns]
   rw [firstError_none_iff, expectErr_eq, eqOrderErr_eq c hcmp, clsOnSetErr_eq, hasCustomSetattr_eq,
-    isFrozen_eq, strFlag_eq, reprDec_eq, hashLocal_bad, cacheHash_eq, initDec_eq]
+    isFrozen_eq, strFlag_eq, reprDec_eq, hashLocal_bad, cacheHash_eq, initDec_eq, hrepr]
   by_cases h1 : (cmpMix c || orderNeedsEq c) = true
   · simp [h1]
   have h1' : (cmpMix c || orderNeedsEq c) = false := by simpa using h1
@@ -73,11 +75,11 @@ theorem firstError_none_iff_expectErr (c : Case) (hcmp : c.api = .attrS ∨ c.fC
   rw [h1', h2', h3', h4']
   cases hf : sFrozen c
   · simp
-    cases sAuto c <;> cases owns c "__setattr__" <;> cases sStr c <;> cases wantRepr c <;>
+    cases sAuto c <;> cases owns c "__setattr__" <;> cases sStr c <;> cases wantRepr c <;> cases owns c "__repr__" <;>
       cases sHooks c <;> cases sCacheHash c <;> cases wantInit c <;> cases wantHash c <;> simp
   · have : (sOnSet c != .off) = false := by simpa [hf] using h3'
     simp [this]
-    cases sAuto c <;> cases owns c "__setattr__" <;> cases sStr c <;> cases wantRepr c <;>
+    cases sAuto c <;> cases owns c "__setattr__" <;> cases sStr c <;> cases wantRepr c <;> cases owns c "__repr__" <;>
       cases sHooks c <;> cases sCacheHash c <;> cases wantInit c <;> cases wantHash c <;> simp
 
 end Attrs.C14
